@@ -223,10 +223,16 @@ theorem verifyDV_ok_iff (d : DV) (vals : List Validator) :
 def LCAProves (storeH : Int) (l : LCA) : Prop :=
   (signedHeader c storeH l.common).isSome ∧ (loadVals c storeH l.common).isSome ∧
   ((l.common ≠ l.cfh ∧ (signedHeader c storeH l.cfh).isSome) ∨ l.common = l.cfh) ∧
-  c.lcaOK (.lca l) l.cfh = true
+  lcaOK c l l.cfh = true
 
 theorem signedHeader_latest (storeH : Int) : signedHeader c storeH storeH = none := by
   simp [signedHeader]
+
+theorem lcaRes_ok_iff (l : LCA) (th : Int) : lcaRes c l th = .ok () ↔ lcaOK c l th = true := by
+  unfold lcaRes lcaOK
+  cases h : lcaVerdict c l th with
+  | ok u => simp
+  | error e => cases e <;> simp
 
 theorem verifyLCA_ok_iff (storeH : Int) (l : LCA) :
     verifyLCA c storeH l = .ok () ↔ LCAProves c storeH l := by
@@ -235,9 +241,9 @@ theorem verifyLCA_ok_iff (storeH : Int) (l : LCA) :
   cases h1 : signedHeader c storeH l.common <;> simp
   cases h2 : loadVals c storeH l.common <;> simp
   by_cases h3 : l.common = l.cfh
+  · simp [h3, lcaRes_ok_iff]
   · simp [h3]
-  · simp [h3]
-    cases h4 : signedHeader c storeH l.cfh <;> simp
+    cases h4 : signedHeader c storeH l.cfh <;> simp [lcaRes_ok_iff]
 
 /-- the evidence proves the misbehaviour it claims against the validator set and the block time
 of its height, as far as the node's stores reach -/
